@@ -50,6 +50,19 @@ def veq(a, b):
         ea = a.elem(k) if isinstance(a, values.SList) else _pyelem(a, k)
         eb = b.elem(k) if isinstance(b, values.SList) else _pyelem(b, k)
         return (la == lb) & ((k >= 0) & (k < la)).implies(veq(ea, eb))
+    if isinstance(a, values.BList) or isinstance(b, values.BList):
+        if isinstance(b, values.BList) and not isinstance(a, values.BList):
+            a, b = b, a
+        if not isinstance(b, values.BList):
+            if isinstance(b, list) and not b:
+                return (a.rows == 0) & (a.partial == 0)
+            return SBool(False)
+        t, i = sym.fresh_int("veq_t"), sym.fresh_int("veq_i")
+        same_shape = (a.ncols == b.ncols) & (
+            ((a.rows == b.rows) & (a.partial == b.partial)) |
+            ((a.rows + 1 == b.rows) & (a.partial == a.ncols) & (b.partial == 0)) |
+            ((b.rows + 1 == a.rows) & (b.partial == b.ncols) & (a.partial == 0)))
+        return same_shape & a.in_domain(t, i).implies(veq(a.elem2(t, i), b.elem2(t, i)))
     if isinstance(a, values.SDict) or isinstance(b, values.SDict):
         if not (isinstance(a, values.SDict) and isinstance(b, values.SDict)):
             if isinstance(a, dict) and not a:
